@@ -56,7 +56,7 @@ class Sched:
     """Threads call point(label) and block until label is the head of the script and no other thread is
     running; the thread that passed a point runs alone until its next point (or until it exits)."""
 
-    def __init__(self, script, timeout=4.0):
+    def __init__(self, script, timeout=2.0):
         self.script = list(script)
         self.pos = 0
         self.cv = threading.Condition()
@@ -312,6 +312,20 @@ def run_impl(case):
             res['second'] = o2
             res['second_calls'] = len(w.calls) - calls1
             res['is_open'] = s._is_open
+        elif op == 'par_then_par':
+            res['outcome'] = _outcome(w, lambda: s.parallel_safe(w.action, ad))
+            w.sched.release()
+            w.sched.wait_script_done()
+            for t in w.threads:
+                if t.ident is not None:
+                    threading.Thread.join(t, 2.0)
+            first_calls = len(w.calls)
+            w.failing_uris = set()
+            w.sched.free = True
+            res['second'] = _outcome(w, lambda: s.parallel_safe(w.action, ad))
+            res['second_insts'] = sorted(i for i, _ in w.calls[first_calls:])
+            del w.calls[first_calls:]
+            del w.call_members[first_calls:]
         elif op == 'close_links':
             s._is_open = True
             res['outcome'] = _outcome(w, s.close_links)
@@ -451,6 +465,7 @@ def members_of(uris):
 
 def gen_case(rng, op, n=None, failing_idx=None, exhaustive_sched=None, total=False, no_repeat=False):
     n = rng.randrange(0, 7) if n is None else n
+    total = total or op == 'par_then_par'
     base = rng.sample(range(1, 40), n)
     uris = list(base)
     if n and not no_repeat and rng.random() < 0.25:                      # repeated URIs: same key, later instance wins
@@ -583,6 +598,9 @@ def compare(case, impl, mv):
         mo = ['Returned']
     elif op in ('open_links', 'open_twice'):
         pass
+    if mo and io and mo[0] == 'Raised' and io[0] == 'Raised' and isinstance(mo[1], list) and isinstance(io[1], list) \
+            and mo[1][0] == 'EChained' and io[1][0] == 'EChained' and io[1][1] in errors:
+        io = mo            # canonical: the report is chained from ONE of the errors in the reporter (the code takes the first)
     want = [calls, mo, all_done, errors, flag, done_pre]
     got = [impl['calls'], io, impl['alive'] == 0 and len(impl['done_final']) == impl['n'], i_err, i_flag,
            impl['all_done_at_return']]
@@ -594,9 +612,9 @@ def compare(case, impl, mv):
             return ('model: open_links has no parallel result', None, None)
         out, is_open, closes = ol
         if op == 'open_links':
-            if [_norm_outcome(out), is_open, closes] != [impl['outcome'], impl['is_open'], impl['closes']]:
+            if [_norm_outcome(out), is_open, closes] != [io, impl['is_open'], impl['closes']]:
                 return ('open_links differs', [_norm_outcome(out), is_open, closes],
-                        [impl['outcome'], impl['is_open'], impl['closes']])
+                        [io, impl['is_open'], impl['closes']])
         else:
             out2, is_open2, closes2, runs_par = m[5]
             want2 = [_norm_outcome(out), _norm_outcome(out2), 0 if not runs_par else None, is_open2, closes + closes2]
@@ -637,7 +655,7 @@ def _gen_cases(ctx, rng):
                 c = gen_case(rng, 'parallel_safe', n=n, failing_idx=list(sub), exhaustive_sched=[list(e) for e in sc],
                              total=True, no_repeat=True)
                 cases.append(c)
-    for _ in range(ctx.scale(500, 6000)):
+    for _ in range(ctx.scale(1500, 15000)):
         op = rng.choice(['parallel_safe'] * 5 + ['parallel'] * 2 + ['sequential'] * 2 + ['open_links'] * 3 +
                         ['open_twice', 'close_links'])
         cases.append(gen_case(rng, op))
@@ -654,9 +672,14 @@ def tie(ctx):
     seen = set()
     nontriv = 0
     samples = []
+    n_bad = n_run = 0
     for c, mv in zip(cases, model):
+        if n_bad >= 6:             # enough evidence; blocked runs cost seconds each
+            break
         impl = run_impl(c)
+        n_run += 1
         d = compare(c, impl, mv)
+        n_bad += 1 if d else 0
         n = impl['n']
         dist['ops'][c['op']] = dist['ops'].get(c['op'], 0) + 1
         dist['sizes'][n] = dist['sizes'].get(n, 0) + 1
@@ -678,7 +701,7 @@ def tie(ctx):
         elif len(samples) < 3 and n >= 3 and nf >= 1 and c['op'] == 'parallel_safe':
             samples.append({'case': c, 'impl': {k: impl[k] for k in ('calls', 'outcome', 'errors', 'all_done_at_return')}})
     return {
-        'evaluations': len(cases),
+        'evaluations': n_run,
         'distinct_nontrivial': nontriv,
         'rule': 'operations sequential/parallel/parallel_safe/open_links/open twice/close_links on swarms of 0..6 members '
                 '(URI lists with repetitions; argument dictionaries None, empty, total, with a missing key, with a foreign '
@@ -742,7 +765,7 @@ def check_property(case, impl):
             return fail('sequential_wrong_order_or_result', [exp_calls, exp_out], [insts_called, out],
                         'sequential runs the members one at a time in the order of the URIs')
         return None
-    if op in ('parallel_safe', 'parallel', 'open_links', 'open_twice') and not (op == 'open_links' and case.get('is_open')):
+    if op in ('parallel_safe', 'parallel', 'open_links', 'open_twice', 'par_then_par') and not (op == 'open_links' and case.get('is_open')):
         if missing:
             # precondition of the property violated (argument dictionary not total): only the KeyError is checked
             if op == 'parallel_safe' and (out[0] != 'Raised' or out[1][0] != 'EKey'):
@@ -788,9 +811,100 @@ def check_property(case, impl):
             if impl['second'] != ['Raised', 'EAlreadyOpen'] or impl['second_calls'] != 0:
                 return fail('double_open_not_refused', [['Raised', 'EAlreadyOpen'], 0], [impl['second'], impl['second_calls']],
                             'a swarm cannot be opened twice')
+    if op == 'par_then_par' and not missing:
+        if impl['second'] != ['Returned'] or impl['second_insts'] != sorted(want_insts):
+            return fail('later_action_affected_by_earlier_errors', [['Returned'], sorted(want_insts)],
+                        [impl['second'], impl['second_insts']],
+                        'a swarm-wide action whose calls all succeed returns normally, whatever happened before')
     if op == 'close_links':
         if impl['closes'] != want_insts or impl['is_open']:
             return fail('close_links_incomplete', [want_insts, False], [impl['closes'], impl['is_open']])
+    return None
+
+
+def run_hold(case, wait=0.15):
+    """Ungated run in which the actions of the members in case['hold'] do not finish until the harness lets them:
+    the swarm call (made in a helper thread) must not return before.  Costs `wait` seconds on a correct tree."""
+    import cflib.crazyflie.swarm as sw
+    uris, failing, hold = case['uris'], set(case['failing']), set(case['hold'])
+    release = threading.Event()
+    lock = threading.Lock()
+    calls, done = [], set()
+
+    class M:
+        def __init__(self, uri, inst):
+            self.uri, self.inst = uri, inst
+
+        def open_link(self):
+            action(self)
+
+        def close_link(self):
+            pass
+
+    class F:
+        def __init__(self):
+            self.k = 0
+
+        def construct(self, uri):
+            self.k += 1
+            return M(uri, self.k - 1)
+
+    def action(scf, *a):
+        with lock:
+            calls.append(scf.inst)
+        try:
+            if scf.uri in hold:
+                release.wait(5.0)
+            if scf.uri in failing:
+                raise _Err(scf.inst)
+        finally:
+            with lock:
+                done.add(scf.inst)
+
+    s = sw.Swarm(uris, factory=F())
+    members = [m.inst for m in s._cfs.values()]
+    out = {}
+    returned = threading.Event()
+
+    def caller():
+        try:
+            if case['op'] == 'open_links':
+                s.open_links()
+            elif case['op'] == 'parallel':
+                s.parallel(action)
+            else:
+                s.parallel_safe(action)
+            out['outcome'] = 'Returned'
+        except Exception as e:  # noqa
+            out['outcome'] = 'Raised'
+            out['cause_is_raised_error'] = isinstance(e.__cause__, _Err)
+        with lock:
+            out['done_at_return'] = sorted(done)
+        returned.set()
+
+    t = threading.Thread(target=caller, daemon=True)
+    t.start()
+    early = returned.wait(wait)
+    release.set()
+    t.join(6.0)
+    res = {'returned_while_held': bool(early), 'members': members, 'calls': sorted(calls), 'alive': t.is_alive()}
+    res.update(out)
+    return res
+
+
+def check_hold(case):
+    r = run_hold(case)
+    if r['alive'] or 'outcome' not in r:
+        return {'class': 'swarm_call_blocked', 'case': case, 'expected': 'returns after release', 'observed': r}
+    if r['returned_while_held'] or r['done_at_return'] != sorted(r['members']):
+        return {'class': 'returned_before_all_actions_finished', 'case': case, 'expected': sorted(r['members']),
+                'observed': r, 'detail': 'the swarm call came back while the actions of the held members were still running'}
+    if r['calls'] != sorted(r['members']):
+        return {'class': 'action_not_run_once_per_member', 'case': case, 'expected': sorted(r['members']), 'observed': r['calls']}
+    want = 'Returned' if case['op'] == 'parallel' or not case['failing'] else 'Raised'
+    if r['outcome'] != want:
+        return {'class': 'failure_not_raised' if want == 'Raised' else 'raises_without_failure', 'case': case,
+                'expected': want, 'observed': r}
     return None
 
 
@@ -807,15 +921,29 @@ def oracle(ctx, deep=False):
     cases = list(_corpus_cases())
     for size in range(0, ctx.scale(4, 5)):
         for sub in itertools.chain.from_iterable(itertools.combinations(range(size), r) for r in range(size + 1)):
-            for op in ('parallel_safe', 'parallel_safe', 'parallel', 'sequential', 'open_links', 'open_twice'):
+            for op in ('parallel_safe', 'parallel_safe', 'parallel', 'sequential', 'open_links', 'open_twice', 'par_then_par'):
                 cases.append(gen_case(rng, op, n=size, failing_idx=list(sub)))
     for _ in range(ctx.scale(400, 5000) * (3 if deep else 1)):
         op = rng.choice(['parallel_safe'] * 5 + ['parallel'] * 2 + ['sequential'] * 2 + ['open_links'] * 3 +
-                        ['open_twice', 'close_links'])
+                        ['open_twice', 'close_links', 'par_then_par'])
         cases.append(gen_case(rng, op))
-    for c in cases:
+    n_bad = 0
+    # the join: members whose action is held back must hold back the caller
+    for i in range(ctx.scale(10, 60)):
+        size = rng.randrange(2, 6)
+        uris = rng.sample(range(1, 40), size)
+        hold = [uris[-1]] if i % 3 == 0 else (uris[1:] if i % 3 == 1 else rng.sample(uris, rng.randrange(1, size)))
+        c = {'op': rng.choice(['parallel_safe', 'parallel_safe', 'parallel', 'open_links']), 'uris': uris,
+             'failing': [u for u in uris if rng.random() < 0.3], 'hold': hold, 'kind': 'hold'}
         n += 1
-        add(check_property(c, run_impl(c)))
+        add(check_hold(c))
+    for c in cases:
+        if n_bad >= 8:
+            break
+        n += 1
+        f = check_property(c, run_impl(c))
+        n_bad += 1 if f else 0
+        add(f)
     return {'evaluations': n, 'failures': fails,
             'rule': 'on each gated run of the real Swarm: each member called exactly once with its own instance and '
                     'arguments; sequential one at a time in URI order; parallel_safe finished only after all actions, raises '
@@ -825,4 +953,6 @@ def oracle(ctx, deep=False):
 
 def replay(payload, ctx):
     c = payload['case']
+    if c.get('kind') == 'hold':
+        return check_hold(c)
     return check_property(c, run_impl(c))
